@@ -54,7 +54,7 @@ ENGINE_STREAMS = {
     "C06": [("C01", 40, 1500, 40), ("churn", 40, 1000, 60), ("wide", 20, 400, 30), ("widekids", 20, 400, 90), ("sentinel", 60, 1500, 40), ("inner", 30, 1000, 40), ("reject", 30, 1000, 40), ("mix", 40, 2000, 40)],
     "C07": [("faults", 50, 2000, 40), ("alwaysfaults", 50, 2000, 40), ("binds", 20, 1000, 40), ("reject", 30, 1000, 40), ("pardropfaults", 30, 1000, 30), ("mix", 40, 2000, 40)],
     "C08": [("binds", 60, 3000, 40), ("inner", 30, 1000, 40), ("bind2", 60, 2000, 40), ("deadobs", 40, 1500, 40), ("chain", 40, 1500, 30), ("mix", 40, 2000, 40)],
-    "C10": [("C01", 30, 1500, 40), ("faults", 30, 1500, 40), ("inner", 40, 1500, 40), ("mix", 40, 2000, 40)],
+    "C10": [("C01", 30, 1500, 40), ("faults", 30, 1500, 40), ("inner", 40, 1500, 40), ("reject", 30, 1000, 40), ("limit", 30, 1000, 40), ("mix", 40, 2000, 40)],
     "C11": [("cutoffs", 60, 3000, 40), ("midset", 50, 1500, 40), ("readd", 40, 1500, 30), ("cutfaults", 40, 1500, 40), ("mix", 40, 2000, 40)],
     "C12": [("midset", 40, 1500, 40), ("unobs", 30, 1500, 40), ("relink", 50, 1500, 34), ("mix", 40, 2000, 40)],
     "C13": [("C01", 40, 1500, 40), ("midset", 30, 1500, 40), ("inner", 30, 1500, 40), ("faults", 30, 1500, 40), ("mix", 40, 2000, 40), ("widekids", 20, 400, 90)],
@@ -169,6 +169,10 @@ def run_engine(ctx, K):
         n = tier_n(ctx, nq * 10, nt * 3)
         cases = os.path.join(ctx.rundir, "cases_%s_%s.v" % (ctx.pid, profile))
         extra = ["-include", ENGINE_INCLUDES[ctx.pid]] if ctx.pid in ENGINE_INCLUDES else []
+        if profile in ("reject", "limit") and ctx.pid == "C10":
+            # past a rejection only C10's own oracle speaks (registered iff the last notification said necessary): what the
+            # rejected operation leaves half-linked is K03, a finding about C05, and is not charged to C10
+            extra = []
         if profile in ("wide", "widekids"):
             # a corrupted edge list of a wide node (lost or misplaced edge) is what makes values stale, runs missed
             # and nodes leak there: the edge oracles count for every property on these streams
